@@ -146,6 +146,28 @@ fn check_msg(lm: &LMsg, k: &Keyed, near: &[(KeySpec, HMACKey)], walk_faults: boo
         rep.nontrivial_by_construction();
         return;
     }
+    // (iii-c) wrong MAC values that a careless comparison accepts (errors cancelling under a folding comparison, permuted
+    // words, right only in a prefix / suffix): messages whose byte hash selects them (one in 8) - the patterns do not
+    // depend on the message
+    if crate::util::hash64(&enc) % 8 == 0 {
+        for t in &macs {
+            for (what, wrong) in crate::faults::mac_patterns(&t.value) {
+                let mut m = enc.clone();
+                m[t.off + 4..t.off + 4 + wrong.len()].copy_from_slice(&wrong);
+                rep.eval();
+                match accepted(&m, t.ty, k.subject, &plain, &validating) {
+                    Ok(false) => {}
+                    Ok(true) => rep.violate(
+                        format!("tampered-message-accepted/{}/mac-value/{}", kind_name(t.ty), what),
+                        format!("MAC replaced by {}", hex(&wrong)),
+                        json!({"kind": "bytes", "original": hex(&enc), "tampered": hex(&m), "key": k.spec.show()}),
+                    ),
+                    Err(pn) => rep.violate(format!("validation-panics/{}", crate::util::panic_site(&pn)), pn, replay()),
+                }
+            }
+        }
+        rep.sym("mac-patterns");
+    }
     // (iii-b) every single-bit fault in the protected prefix (except header bytes 2-3), in the attribute's own
     // header and in the MAC
     let mut m = enc.clone();
@@ -318,6 +340,27 @@ pub fn run(ctx: &RunCtx) -> i32 {
             shared.merge(r);
         });
     }
+    // decoy values: a DATA blob (last ordinary attribute) whose bytes imitate integrity / fingerprint attribute headers at
+    // every word of its last 48 bytes (singles and all pairs) x 6 tails, no fault walk
+    {
+        let ks = &keys[0];
+        let subj = ks.subject().unwrap();
+        let raw = ks.ref_bytes();
+        let near: Vec<(KeySpec, HMACKey)> = menu::near_keys(ks).into_iter().filter_map(|n| n.subject().ok().map(|s| (n, s))).take(1).collect();
+        menu::decoy_blobs().par_chunks(16).for_each(|ch| {
+            let kk = Keyed { spec: ks, subject: &subj, raw: &raw };
+            let mut r = Report::new();
+            for b in ch {
+                for tail in &tails {
+                    let mut attrs = vec![L::Data(b.clone())];
+                    attrs.extend(tail.clone());
+                    check_msg(&menu::lmsg(1, 3, [0x46; 12], attrs), &kk, &near, false, &mut r);
+                }
+            }
+            r.sym("decoy-values");
+            shared.merge(r);
+        });
+    }
     let mut rep = shared.into_inner();
     rep.outcome("accepted-iff-untampered-under-right-key");
     rep.outcome(format!("violations:{}", rep.violations.len()));
@@ -326,9 +369,9 @@ pub fn run(ctx: &RunCtx) -> i32 {
         rep,
         Finish {
             level: "fault_enumeration",
-            rule: format!("messages with 0..=2 body attributes over the {}-entry menu (values <=64 bytes; long values as singles) x 6 legal tails containing MI and/or SHA256 x {} keys (short-term incl. non-ASCII, long-term MD5 and SHA-256); for each: wire bytes == reference (independent HMAC over the RFC input under the independently derived key), every integrity attribute accepted under the right key whatever tail follows, rejected under every key differing in one character of user / realm / password (or algorithm), and rejected after every single-bit fault in the protected prefix (except header bytes 2-3), the attribute's own header and the MAC (pairs only under the first 3 keys; quick tier: pairs walk faults under one rotating tail). Plus one DATA blob of every length 0..=300 x 3 tails (fault walks for every length in the thorough tier, <=140 in the quick tier) and the deep messages of C01 (offsets around 256..4096 / 32768, long runs, repeats, rotations, quads) x 2 tails under a short-term and a long-term SHA-256 key, without fault walks; the offset family (MI / SHA256 / MI+SHA256+FINGERPRINT behind a filler at every 4-aligned body offset 0..=4200 (thorough 16,400), around multiples of 4096 (1024), every offset 65,300 up to the 65,532-byte maximum). For one message in 16 the untampered and a tampered copy are also decoded by every construction route of the four validating decoder configurations (builder calls in every order, a repeated call, clones of decoder and context) and must get the canonical decoder's verdict. Acceptance = validating decoder returns the attribute OR get_input_text+validate says true. Non-trivial = message that passed all of these", menu_v.len(), keys.len()),
+            rule: format!("messages with 0..=2 body attributes over the {}-entry menu (values <=64 bytes; long values as singles) x 6 legal tails containing MI and/or SHA256 x {} keys (short-term incl. non-ASCII, long-term MD5 and SHA-256); for each: wire bytes == reference (independent HMAC over the RFC input under the independently derived key), every integrity attribute accepted under the right key whatever tail follows, rejected under every key differing in one character of user / realm / password (or algorithm), and rejected after every single-bit fault in the protected prefix (except header bytes 2-3), the attribute's own header and the MAC (pairs only under the first 3 keys; quick tier: pairs walk faults under one rotating tail). Plus one DATA blob of every length 0..=300 x 3 tails (fault walks for every length in the thorough tier, <=140 in the quick tier) and the deep messages of C01 (offsets around 256..4096 / 32768, long runs, repeats, rotations, quads) x 2 tails under a short-term and a long-term SHA-256 key, without fault walks; the offset family (MI / SHA256 / MI+SHA256+FINGERPRINT behind a filler at every 4-aligned body offset 0..=4200 (thorough 16,400), around multiples of 4096 (1024), every offset 65,300 up to the 65,532-byte maximum). For one walked message in 8 the MAC is also replaced by every value of a pattern family that careless comparisons accept (the same mask on two bytes a multiple of four apart x 3 masks, +1/-1 on neighbouring bytes, swapped / rotated / reversed words, inverted, right only in a prefix or suffix, all zero). Decoy values: a DATA blob whose last 48 bytes imitate the headers of MESSAGE-INTEGRITY / MESSAGE-INTEGRITY-SHA256 / FINGERPRINT at every word, singly and in every pair, x 6 tails. For one message in 16 the untampered and a tampered copy are also decoded by every construction route of the four validating decoder configurations (builder calls in every order, a repeated call, clones of decoder and context) and must get the canonical decoder's verdict. Acceptance = validating decoder returns the attribute OR get_input_text+validate says true. Non-trivial = message that passed all of these", menu_v.len(), keys.len()),
             assumptions: vec!["R-strings table for the non-ASCII passwords".into()],
-            required_symbols: vec!["key-derivation", "accepted-untampered", "rejected-wrong-key", "fault-walks", "long-values", "prefix-length-sweep", "deep-messages", "offset-family", "decoder-construction-routes"],
+            required_symbols: vec!["key-derivation", "accepted-untampered", "rejected-wrong-key", "fault-walks", "long-values", "prefix-length-sweep", "deep-messages", "offset-family", "decoder-construction-routes", "decoy-values", "mac-patterns"],
             min_outcomes: 2,
             exhaustive: true,
             bounds: json!({"menu": menu_v.len(), "keys": keys.len(), "tails": 6}),
